@@ -410,6 +410,11 @@ def _ext_calls(self):
         self.mismatch('external calls', 'code calls %s, contract calls %s' % ([c[0] for c in ca], [c[0] for c in cb]))
         return
     for k, (x, y) in enumerate(zip(ca, cb)):
+        if len(x[2]) != len(y[2]):
+            self.mismatch('%s call %d' % (x[0], k), 'operands of different rank')
+            continue
+        if x[0] == 'sum':
+            self.goal('sum %d lower bound' % k, mk_eq(x[3], y[3]))
         for d, (p, q) in enumerate(zip(x[2], y[2])):
             self.goal('%s call %d input.shape[%d]' % (x[0], k, d), mk_eq(p, q))
         idx, inb = self.generic(x[2])
